@@ -5,6 +5,8 @@ package vh
 import (
 	"context"
 
+	goagrpc "goa.design/goa/v3/grpc"
+	"google.golang.org/grpc"
 	"google.golang.org/grpc/metadata"
 	client "vdesign/gen/grpc/svc/client"
 	svcpb "vdesign/gen/grpc/svc/pb"
@@ -14,7 +16,11 @@ import (
 
 func symPutPayload() *svc.PutPayload {
 	p := &svc.PutPayload{ID: nondetStringUpTo("id", 2), Tenant: nondetString("tenant", 1)}
-	switch nondetChoice("focus", 4) {
+	switch nondetChoice("focus", 5) {
+	case 4:
+		// optional string carried in metadata, with an enum validation
+		v := nondetStringUpTo("mode", 2)
+		p.Mode = &v
 	case 0:
 		if nondetBool("cnt-set") {
 			v := nondetInt32("cnt")
@@ -85,7 +91,7 @@ func VerifC10_p1_put() {
 	}}
 	srv := server.New(eps, nil)
 	resp, herr := srv.Put(ctx, msg.(*svcpb.PutRequest))
-	valid := (want.Cnt == nil || *want.Cnt >= 1) && len(md) > 0
+	valid := (want.Cnt == nil || *want.Cnt >= 1) && len(md) > 0 && (want.Mode == nil || *want.Mode == "ro" || *want.Mode == "rw")
 	verifAssert("user-code-runs-iff-message-valid", (calls == 1) == valid)
 	if !valid {
 		verifAssert("invalid-message-refused-with-error", herr != nil && resp == nil)
@@ -97,6 +103,7 @@ func VerifC10_p1_put() {
 	}
 	verifAssert("field:id", got.ID == want.ID)
 	verifAssert("metadata:tenant", got.Tenant == want.Tenant)
+	verifAssert("metadata:mode", (got.Mode == nil) == (want.Mode == nil) && (got.Mode == nil || *got.Mode == *want.Mode))
 	verifAssert("field:cnt", (got.Cnt == nil) == (want.Cnt == nil) && (got.Cnt == nil || *got.Cnt == *want.Cnt))
 	verifAssert("field:big", (got.Big == nil) == (want.Big == nil) && (got.Big == nil || *got.Big == *want.Big))
 	verifAssert("field:u", (got.U == nil) == (want.U == nil) && (got.U == nil || *got.U == *want.U))
@@ -153,5 +160,50 @@ func VerifC10_p1_result() {
 	if r.Item != nil && want.Item != nil {
 		verifAssert("result:item.n", r.Item.N == want.Item.N)
 		verifAssert("result:item.s", (r.Item.S == nil) == (want.Item.S == nil) && (r.Item.S == nil || *r.Item.S == *want.Item.S))
+	}
+}
+
+// loopClient is the protoc-generated client interface wired straight to the
+// generated server: what the caller's context carries as outgoing metadata is
+// what the server finds as incoming metadata.
+type loopClient struct {
+	srv   svcpb.SvcServer
+	calls int
+}
+
+func (c *loopClient) Put(ctx context.Context, in *svcpb.PutRequest, opts ...grpc.CallOption) (*svcpb.PutResponse, error) {
+	c.calls++
+	md, _ := metadata.FromOutgoingContext(ctx)
+	return c.srv.Put(metadata.NewIncomingContext(context.Background(), md.Copy()), in)
+}
+
+// VerifC10_p1_invoker: the full client path (goa's invoker + generated
+// BuildPutFunc/EncodePutRequest/DecodePutResponse) against the generated
+// server, with and without metadata already attached to the caller's context.
+func VerifC10_p1_invoker() {
+	p := &svc.PutPayload{ID: nondetStringUpTo("id", 1), Tenant: nondetString("tenant", 1)}
+	want := *p
+	var got *svc.PutPayload
+	eps := &svc.Endpoints{Put: func(ctx context.Context, v any) (any, error) {
+		got = v.(*svc.PutPayload)
+		return &svc.PutResult{Rid: "r" + got.Tenant}, nil
+	}}
+	lc := &loopClient{srv: server.New(eps, nil)}
+	ctx := context.Background()
+	switch nondetChoice("caller-metadata", 3) {
+	case 1:
+		ctx = metadata.AppendToOutgoingContext(ctx, "x-request-id", "r1")
+	case 2:
+		ctx = metadata.NewOutgoingContext(ctx, metadata.Pairs("x-trace", "t1", "x-other", "o"))
+	}
+	inv := goagrpc.NewInvoker(client.BuildPutFunc(lc), client.EncodePutRequest, client.DecodePutResponse)
+	res, err := inv.Invoke(ctx, p)
+	verifAssert("invoker:one-remote-call", lc.calls == 1)
+	verifAssert("invoker:call-succeeds", err == nil && res != nil)
+	verifAssert("invoker:server-got-the-payload", got != nil && got.ID == want.ID && got.Tenant == want.Tenant)
+	if r, ok := res.(*svc.PutResult); ok {
+		verifAssert("invoker:result", r.Rid == "r"+want.Tenant)
+	} else {
+		verifAssert("invoker:result-type", err != nil)
 	}
 }
